@@ -151,6 +151,8 @@ class BaseNode(Node):
         value = self.value.copy()
         value.value = self.cast_value(node.value_raw)
         if isinstance(value, (IntegerType, FloatType)):
+            if node.units_raw and not self.units_raw:
+                raise Exception(f"Node '{self.name}' has no units and cannot be assigned a value in:", node.units_raw)
             value.unit = node.units_raw
             value.convert(self.units_raw, env)
         if value.value is None:  # explicitly assigned none
